@@ -248,7 +248,7 @@ def pda_epsilon_closure(P: PDA, R: Iterable[PDAState]) -> Set[PDAState]:
 
     # The states are explored breadth first in a fixed order, such that the result does not depend
     # on the iteration order of sets (i.e. on the string hash seed) when the iteration limit is hit.
-    todo: List[PDAState] = sorted(result)
+    todo: List[PDAState] = sorted(result, key=str)
     transitions = sorted(delta.items(), key=lambda item: item[0])
 
     # The loop below may not terminate in case of epsilon cycles. For this
@@ -310,14 +310,20 @@ def pda_find_epsilon_path(P: PDA, R: Set[PDAState], f: PDAState) -> Optional[Lis
             path.insert(0, q)
         return path
 
+    # The search is breadth first and uses the same fixed order as pda_epsilon_closure. Hence f is found after
+    # at most as many steps as were needed to compute the epsilon closure of R that contains f, also if the set
+    # of states reachable via epsilon steps is infinite.
     visited: Set[PDAState] = set([r for r in R])
-    todo: Set[PDAState] = set([r for r in R])
-    while len(todo) > 0:
-        src = todo.pop()
-        for (p, a, u), Q1 in delta.items():
+    todo: List[PDAState] = sorted(visited, key=str)
+    transitions = sorted(delta.items(), key=lambda item: item[0])
+    index = 0
+    while index < len(todo):
+        src = todo[index]
+        index += 1
+        for (p, a, u), Q1 in transitions:
             if p != src.q or a != epsilon:
                 continue
-            for (q, v) in Q1:
+            for (q, v) in sorted(Q1):
                 if pda_can_pop_push(P, src.stack, u, v):
                     stack1 = pda_pop_push(P, src.stack, u, v)
                     target = PDAState(q, stack1)
@@ -325,7 +331,7 @@ def pda_find_epsilon_path(P: PDA, R: Set[PDAState], f: PDAState) -> Optional[Lis
                         backpointers[target] = src
                         if target == f:
                             return make_path(target)
-                        todo.add(target)
+                        todo.append(target)
                         visited.add(target)
     return None
 
